@@ -2,12 +2,14 @@
 from common_cfg import COMMON_TRUSTED
 
 _SHARDS = ["math"] + ["%02d" % i for i in range(16)]
+_XSHARDS = ["%02d" % i for i in range(16)]  # cross-platform tables (bindXShards in harness/tr_bind.go)
 
 CFG = dict(
     harness="c14",
     translators=["tr-bind"],
     # the regenerated tables are compiled with the models: the cases files of the quick set load them
-    model_targets=["Bind/Cases.vo", "Bind/LitCases.vo"] + ["gen/Bind_%s_gen.vo" % t for t in _SHARDS],
+    model_targets=["Bind/Cases.vo", "Bind/LitCases.vo"] + ["gen/Bind_%s_gen.vo" % t for t in _SHARDS]
+                  + ["gen/BindXDrift_gen.vo"] + ["gen/BindX_%s_gen.vo" % t for t in _XSHARDS],
     # the tables are checked completely on the first run: other seeds cannot find anything new
     search_seeds=[],
     proof_targets=["Props/C14.vo"],
@@ -18,8 +20,8 @@ CFG = dict(
         "go/types + go/constant on $GOROOT/src (per GOOS/GOARCH) as the truth for names, kinds and exact constant values; $GOROOT/api/go1*.txt for the release that introduced a name (and as independent record validating the truth)",
         "runtime.FuncForPC linker names, reflect and go/constant for the run-time identity of the compiled tables",
     ],
-    level_text="Coq: (a) finite theorems by computation over the regenerated tables (every row of the quick set: both releases of stdlib/ + syscall/unsafe/unrestricted for the host platform): rows are what the generator model emits, rows outside the float region denote their object exactly, completeness, forwarding; (b) unbounded theorems: the generator model Y (extract.fixConst: binary rounding then decimal printing) agrees with the property G on every row outside the region, fixConst is exact on every dyadic rational, the literal parser reads back every decimal integer, the decision procedures decide the relation 'denotes'. The tables are regenerated from the source on every run and additionally tied to the compiled tables of the binary (function linker names, addressability, types, exact constants, wrappers exercised with stubs), with the literal parser of the model validated against go/constant on every constant.",
-    level_note="Trusted: Coq kernel + vm_compute, no axioms; translator tr-bind; harness; go/types, go/constant, $GOROOT/api as reference. The thorough tier decides the tables of all 48 platform pairs with the same Coq functions evaluated by coqc on cases files (no .vo theorem for those).",
+    level_text="Coq: (a) finite theorems by computation over the regenerated tables (every row of the quick set: both releases of stdlib/ + syscall/unsafe/unrestricted for the host platform, and the syscall/unrestricted tables of every other platform for the release the toolchain compiles, each against go/types for its own GOOS/GOARCH): rows are what the generator model emits, rows outside the two regions (inexact float constants; untyped rune constants, whose token = untyped kind = default type is part of 'denotes') denote their object exactly, completeness (cross-platform tables: up to the regenerated drift list), forwarding; (b) unbounded theorems: the generator model Y (extract.fixConst: binary rounding then decimal printing) agrees with the property G on every row outside the region, fixConst is exact on every dyadic rational, the literal parser reads back every decimal integer, the decision procedures decide the relation 'denotes' (value AND untyped kind of literals), for every untyped rune constant the generator's row has the exact value and the wrong kind. The tables are regenerated from the source on every run and additionally tied to the compiled tables of the binary (function linker names, addressability, types, exact constants, wrappers exercised with stubs), with the literal parser of the model validated against go/constant on every constant.",
+    level_note="Trusted: Coq kernel + vm_compute, no axioms; translator tr-bind; harness; go/types, go/constant, $GOROOT/api as reference. The thorough tier additionally decides the tables of the other release (go1_21) of all 48 platform pairs with the same Coq functions evaluated by coqc on cases files (no .vo theorem for those). Completeness of the cross-platform tables is proved up to the regenerated drift list coq/gen/BindXDrift_gen.v (9 objects today).",
     technique="Coq: decision procedures proved sound + complete evaluation by vm_compute on tables regenerated from source; proofs about rounding (Z arithmetic) for the generator model; run-time correspondence with the compiled tables",
     assumptions=[
         "the truth is the installed go1.23.5 source minus the names $GOROOT/api lists for later releases than the file targets (go1_21 files are judged against go1.23.5 declarations that api/go1.22.txt and go1.23.txt do not list)",
